@@ -397,6 +397,15 @@ func (c *c10Child) runServerCase(k *c10Case) c10Reply {
 			got, _ := a.snapshot()
 			hi0 = c10HighBytes(got)
 		}
+		if !created[sid] {
+			isOwnSid := false
+			for _, id := range own {
+				isOwnSid = isOwnSid || id == sid
+			}
+			if !isOwnSid {
+				hi0 = 0 // a session this step may create starts empty
+			}
+		}
 		var raw []byte
 		home.mu.Lock()
 		closeReqs0 := home.closeReqs[sid]
@@ -532,36 +541,51 @@ func (c *c10Child) runServerCase(k *c10Case) c10Reply {
 		o.Victim = c.probeApp(c.victimRd, c10ProbeTimeout)
 		if !underlayClosed {
 			// wait for what the model announced, then take the snapshot
-			switch s.Expect {
-			case "createSession":
-				c.waitFor(c10ProbeTimeout, func() bool { return c.apps[sid] != nil })
-			case "closeSession":
-				if a := c.appSess(sid); a != nil {
-					c.waitFor(c10ProbeTimeout, func() bool { _, cl := a.snapshot(); return cl })
-				}
-			default:
-				time.Sleep(20 * time.Millisecond)
-			}
 			isOwn := false
 			for _, id := range own {
 				if id == sid {
 					isOwn = true
 				}
 			}
-			a := c.appSess(sid)
-			c.mu.Lock()
-			for _, id := range c.order[accepts0:] {
-				if id == sid && !isOwn && !created[sid] {
-					o.Created = true
+			// sessions of EARLIER cases may have had the same id (the other user's id is the same in every
+			// case of this child): only what this case opened or created counts
+			acceptedNow := func() bool {
+				for _, id := range c.order[accepts0:] {
+					if id == sid {
+						return true
+					}
 				}
+				return false
 			}
+			switch s.Expect {
+			case "createSession":
+				c.waitFor(c10ProbeTimeout, acceptedNow)
+			case "closeSession":
+				if isOwn || created[sid] {
+					if a := c.appSess(sid); a != nil {
+						c.waitFor(c10ProbeTimeout, func() bool { _, cl := a.snapshot(); return cl })
+					}
+				}
+			default:
+				time.Sleep(20 * time.Millisecond)
+			}
+			c.mu.Lock()
+			if acceptedNow() && !isOwn && !created[sid] {
+				o.Created = true
+			}
+			a := c.apps[sid]
 			c.mu.Unlock()
 			if o.Created {
 				created[sid] = true
 			}
-			if a != nil {
+			if a != nil && (isOwn || created[sid]) {
+				if s.PayloadN > 0 && (o.Created || (s.Expect == "deliver" && s.SeqSel == "next" && c10IsData(s.Proto))) {
+					// the payload follows the accept / the segment through two goroutines: let it arrive now, so
+					// that it is attributed to this step and not to the next one
+					c.waitFor(2*time.Second, func() bool { got, cl := a.snapshot(); return cl || c10HighBytes(got) > hi0 })
+				}
 				got, closed := a.snapshot()
-				o.TargetGone = closed && (isOwn || created[sid]) && !gone[sid]
+				o.TargetGone = closed && !gone[sid]
 				if closed {
 					gone[sid] = true
 				}
@@ -832,6 +856,12 @@ func (c *c10Child) runClientCase(k *c10Case) c10Reply {
 		rep.Error = "setup: no application session could be opened"
 		return rep
 	}
+	if s2 == nil {
+		// the scheduler never put a second session on the first one's underlay: the model's table (two
+		// sessions on the attacked underlay) would not describe this run
+		rep.Error = "setup: no second session on the attacked underlay"
+		return rep
+	}
 	rep.SetupOK = true
 	rep.SameUnder = s2 != nil
 	rep.Own = []uint32{s1.id, 0}
@@ -988,6 +1018,9 @@ func (c *c10Child) runClientCase(k *c10Case) c10Reply {
 				c.waitFor(c10ProbeTimeout, func() bool { _, cl := target.snapshot(); return cl })
 			} else {
 				time.Sleep(20 * time.Millisecond)
+			}
+			if s.PayloadN > 0 && s.Expect == "deliver" && s.SeqSel == "next" && c10IsData(s.Proto) {
+				c.waitFor(2*time.Second, func() bool { got, cl := target.snapshot(); return cl || c10HighBytes(got) > hi0 })
 			}
 			got, closed := target.snapshot()
 			o.AppGot = c10HighBytes(got) > hi0
